@@ -6,7 +6,7 @@
    [C04_field_roundtrip] says that a value encoded at a position between arbitrary
    neighbours is read back exactly.  Type 15 is proved at every length ([C04_type15]) and for its three specification-legal forms (88, 110, 160 bits). *)
 From Ais Require Import Model.Base Model.Enums Model.Fields Model.Messages Model.Unarmor Model.Sentence
-  Spec.Layouts Proofs.Bits Proofs.Reads Proofs.Layouts Proofs.Dispatch Proofs.MsgLevel Proofs.Interrogation.
+  Spec.Layouts Proofs.Bits Proofs.Reads Proofs.Layouts Proofs.Dispatch Proofs.MsgLevel Proofs.Interrogation Model.NomBits Proofs.NomBitsProof.
 From Ais Require Import Spec.Grammar Spec.Armor Proofs.EndToEnd Proofs.UnarmorProof.
 From Coq Require Import Lia.
 Local Open Scope N_scope.
@@ -152,6 +152,28 @@ Theorem C04_type24 :
   parse_bits c q bs = Ok (StaticDataReport (static_data_of bs)).
 Proof. intros c q bs Ht H40 Hl. pose proof (msg_type24 c q bs Ht H40) as H. destruct (Nat.leb_spec (static_data_min bs) (length bs)); [exact H|lia]. Qed.
 Print Assumptions C04_type24.
+
+(* below the model's [take]: the byte-and-shift loop of nom 7.1.3 `bits::complete::take`, transcribed in
+   Model/NomBits.v, returns exactly the bit slice and moves the Rust cursor (remaining bytes, bit offset)
+   the way the model moves its bit position *)
+Theorem C04_nom_take_is_slice :
+  forall count input off, Forall (fun b => b < 256) input -> (off < 8)%nat ->
+    nom_take count input off =
+    if (count =? 0)%nat then Ok ((input, off), 0)
+    else if (length input * 8 <? count + off)%nat then Err EError
+    else Ok ((skipn ((count + off) / 8) input, ((count + off) mod 8)%nat), sl (bits_of_bytes input) off count).
+Proof. exact nom_take_correct. Qed.
+Print Assumptions C04_nom_take_is_slice.
+Theorem C04_nom_take_refines_model :
+  forall w all p, Forall (fun b => b < 256) all -> (p <= 8 * length all)%nat ->
+    nom_take w (fst (cursor_of all p)) (snd (cursor_of all p)) =
+    match take w (bits_of_bytes all) p with
+    | Ok (v, p') => Ok (cursor_of all p', v)
+    | Err e => Err e
+    | Panic s => Panic s
+    end.
+Proof. exact nom_take_refines_model. Qed.
+Print Assumptions C04_nom_take_refines_model.
 
 Theorem C04_type15 :
   forall c q bs, sl bs 0 6 = 15 ->
